@@ -748,6 +748,14 @@ Definition subspace (sel : list (option Z)) (s : cstate) : cstate * outcome :=
 (* ------------------------------------------------------------------ *)
 Definition subset (l1 l2 : list key) : bool := forallb (fun a => memb a l2) l1.
 
+(* setting the same construct under the same key twice leaves one *)
+Fixpoint dedup_entries (l : list centry) : list centry :=
+  match l with
+  | [] => []
+  | e :: r => if existsb (same_entry (fst (fst e)) (snd (fst e))) r
+              then dedup_entries r else e :: dedup_entries r
+  end.
+
 Definition convert (k : key) (full : bool) (s : cstate) : cstate * outcome :=
   match assoc k (ctys s) with
   | None => (s, Rejected ValueErr)
@@ -824,7 +832,8 @@ Definition convert (k : key) (full : bool) (s : cstate) : cstate * outcome :=
                             end in
                         match fold_left ref_step (cons s) (Some ([], [])) with
                         | None => (s, Rejected KeyErr)
-                        | Some (refs, das) =>
+                        | Some (refs, das0) =>
+                            let das := dedup_entries das0 in
                             let allc := (axes_c ++ kept ++ refs ++ das)%list in
                             let keys := map (fun e => snd (fst e)) (kept ++ das)%list in
                             (mkS allc (map (fun e => (snd (fst e), fst (fst e))) allc)
